@@ -123,6 +123,7 @@ def check(sim, case, st):
     snap1 = sim.snap()
     outs, _p = OP.judge(sim.root, snap0, snap1, named, mounts)
     if outs[0].state != 'trashed' or r.exit != 0:
+        st.probes['premise-not-met:put-did-not-trash'] += 1      # C01/C16/C17 judge failing puts
         return []
     loc = named[0].loc
     T, N = outs[0].tdir, outs[0].name
